@@ -502,6 +502,9 @@ func run(out, tier string, seed int64) {
 	}
 	// fixed deep nestings (beyond any small recursion guard), arrays and objects alternating
 	vals = append(vals, plainNested(33), plainNested(48), plainNested(64), plainNested(100))
+	// floats at the edges of the int64 range (2^63 is a float, not an int64) and just inside
+	vals = append(vals, values.Float(9223372036854775808.0), values.Float(-9223372036854775808.0), values.Float(9223372036854774784.0), values.Float(18446744073709551616.0),
+		Arr(values.Float(9223372036854775808.0)), Obj("k", values.Float(-9223372036854775808.0)))
 	// objects with many members (17, 40, 300): member order is canonical whatever the size
 	for _, n := range []int{17, 40, 300} {
 		o := values.NewObject()
